@@ -17,7 +17,8 @@ EXPLANATION = (
     'comparison with the expected acknowledgement; R2 the slots a key is provisioned to and verified from agree (NTAG21x '
     'PWD/PACK split, default keys, FeliCa/Ultralight C byte order); R3 the expression that turns the password into the key '
     'is evaluated by the checker for several password values in the protect and the authenticate routine of each class and '
-    'must agree; R4 write MAC uses the flipped key and the write counter, read MAC the session key and the same IV in '
+    'must agree; R4 write_with_mac and generate_mac folded with the tag commands and the cipher object modelled: the MAC covers WCNT || block || 91h || data under the flipped key, '
+    'the command carries data || MAC || WCNT, the cipher gets (key, CBC, iv) and the 8 byte groups reversed; read MAC the session key and the same IV in '
     'generation and verification; R5 the Read Without Encryption below the MAC readers accepts exactly 1 + 16 * blocks octets (folded over all request/response sizes), so the end-relative MAC slices are never empty.  Cryptographic soundness of generate_mac and detection of every modification are value '
     'level and not decided.')
 
